@@ -144,6 +144,15 @@ def returned_value(p):
     return strip_all_casts(p.value_of(e))
 
 
+def _defs(fn):
+    from .facts import local_defs
+    d = getattr(fn, "_local_defs_cache", None)
+    if d is None:
+        d = local_defs(fn)
+        fn._local_defs_cache = d
+    return d
+
+
 def enumerate_paths(fn, start=None, stop=None, limit=5000, follow_back=False):
     """All acyclic paths from block `start` (default: entry) to the exit block, or
     to the first block for which stop(bid) is true (that block is recorded as
@@ -199,7 +208,14 @@ def enumerate_paths(fn, start=None, stop=None, limit=5000, follow_back=False):
             for i, s in live:
                 q = p.copy()
                 if leaf is not None:
-                    q.atoms.extend(conjuncts(leaf, i == 0, fn))
+                    new_atoms = conjuncts(leaf, i == 0, fn)
+                    # a path that takes two different outcomes for the same never-reassigned bool local is infeasible
+                    first = new_atoms[0] if new_atoms else None
+                    if first is not None and first[0] == "truth" and strip_all_casts(first[3]).get("k") == "ref" and \
+                            strip_all_casts(first[3]).get("dk") == "local" and len(_defs(fn).get(strip_all_casts(first[3])["decl"], [])) == 1 and \
+                            any(a[0] == "truth" and a[1] == first[1] and a[2] != first[2] for a in p.atoms):
+                        continue
+                    q.atoms.extend(new_atoms)
                 if blk.get("term", -1) >= 0:
                     q.decisions[blk["term"]] = i
                 stack.append((s, q, seen | {b}))
